@@ -126,6 +126,32 @@ func flat(e ast.Expr) string {
 	return "?"
 }
 
+// render prints an expression canonically (selectors dotted, calls with rendered arguments; the
+// receiver chain h.k. and the ctx argument are dropped)
+func render(e ast.Expr) string {
+	switch e := e.(type) {
+	case *ast.Ident:
+		return e.Name
+	case *ast.SelectorExpr:
+		x := render(e.X)
+		if x == "h.k" || x == "k" {
+			return e.Sel.Name
+		}
+		return x + "." + e.Sel.Name
+	case *ast.CallExpr:
+		var args []string
+		for _, a := range e.Args {
+			if r := render(a); r != "ctx" {
+				args = append(args, r)
+			}
+		}
+		return render(e.Fun) + "(" + strings.Join(args, ", ") + ")"
+	case *ast.ParenExpr:
+		return "(" + render(e.X) + ")"
+	}
+	return "?"
+}
+
 // trInt translates a math.Int method chain into a Lean Int expression; names maps Go operands to
 // Lean variables, locals holds `x := e` definitions seen so far (inlined).
 func trInt(e ast.Expr, names map[string]string, locals map[string]ast.Expr, depth int) (string, error) {
@@ -289,20 +315,43 @@ func genSpons(repo string) (string, []string, error) {
 			fmt.Fprintf(&b, "/-- %s -/\ndef %s (voteVP oldVP newVP : Int) : Int := %s\n\n", doc, leanName, s)
 		}
 		redo("hookNewTotal", "`processHook`: newTotalVP", &ast.Ident{Name: "newTotalVP"})
-		// the power handed to ApplyWeights inside processHook
-		var arg ast.Expr
-		ast.Inspect(f.Body, func(n ast.Node) bool {
-			if c, ok := n.(*ast.CallExpr); ok && flat(c.Fun) == "types.ApplyWeights" && len(c.Args) == 2 && arg == nil {
-				arg = c.Args[0]
+		// the sequence of distribution / shares updates processHook performs when the vote is kept
+		// (top-level statements only: the pruning branch is a nested block)
+		var script []string
+		for _, st := range f.Body.List {
+			var line string
+			switch st := st.(type) {
+			case *ast.AssignStmt:
+				if len(st.Lhs) >= 1 && len(st.Rhs) == 1 {
+					r := render(st.Rhs[0])
+					l := render(st.Lhs[0])
+					switch {
+					case strings.Contains(r, "ToDistribution") || strings.Contains(r, "ApplyWeights"):
+						line = l + " := " + r
+					case l == "vote.VotingPower":
+						line = l + " = " + r
+					case strings.Contains(r, "UpdateDistribution") || strings.Contains(r, "UpdateTotalSharesWithDistribution"):
+						line = r
+					}
+				}
+			case *ast.ExprStmt:
+				r := render(st.X)
+				if strings.Contains(r, "UpdateDistribution") || strings.Contains(r, "UpdateTotalSharesWithDistribution") {
+					line = r
+				}
 			}
-			return true
-		})
-		if arg == nil {
-			notes = append(notes, "processHook: no ApplyWeights call")
-			b.WriteString("opaque hookUpdatePower (voteVP oldVP newVP : Int) : Int\n\n")
-		} else {
-			redo("hookUpdatePower", "`processHook`: the voting power handed to `ApplyWeights` for the distribution update", arg)
+			if line != "" {
+				script = append(script, line)
+			}
 		}
+		b.WriteString("/-- `processHook` (vote kept): the distribution / endorsement-share updates, in order -/\ndef hookScript : List String := [")
+		for i, l := range script {
+			if i > 0 {
+				b.WriteString(",")
+			}
+			fmt.Fprintf(&b, "\n  %q", l)
+		}
+		b.WriteString("]\n\n")
 	}
 	// ---- structural facts
 	ign := false
@@ -323,6 +372,23 @@ func genSpons(repo string) (string, []string, error) {
 		notes = append(notes, "EpochHooks.AfterEpochEnd not found")
 	}
 	fmt.Fprintf(&b, "/-- sponsorship's `AfterEpochEnd` does not look at the epoch identifier -/\ndef epochHookIgnoresIdentifier : Bool := %v\n\n", ign)
+	// first statement: `if <identifier> != <…>.DistrEpochIdentifier { return nil }`
+	only := false
+	if f, ok := p.funcs["EpochHooks.AfterEpochEnd"]; ok && len(f.Body.List) > 0 && len(f.Type.Params.List) >= 2 && len(f.Type.Params.List[1].Names) == 1 {
+		id := f.Type.Params.List[1].Names[0].Name
+		if ifs, ok := f.Body.List[0].(*ast.IfStmt); ok && ifs.Init == nil && ifs.Else == nil && len(ifs.Body.List) == 1 {
+			if be, ok := ifs.Cond.(*ast.BinaryExpr); ok && be.Op == token.NEQ {
+				l, r := render(be.X), render(be.Y)
+				if l != id {
+					l, r = r, l
+				}
+				if ret, ok := ifs.Body.List[0].(*ast.ReturnStmt); ok && len(ret.Results) == 1 && render(ret.Results[0]) == "nil" {
+					only = l == id && strings.HasSuffix(r, ".DistrEpochIdentifier") && strings.Contains(r, "incentivesKeeper.GetParams")
+				}
+			}
+		}
+	}
+	fmt.Fprintf(&b, "/-- sponsorship's `AfterEpochEnd` returns at once unless the identifier is x/incentives' DistrEpochIdentifier -/\ndef epochHookOnlyOnDistrIdentifier : Bool := %v\n\n", only)
 	noop := false
 	if f, ok := p.funcs["StakingHooks.BeforeValidatorSlashed"]; ok && len(f.Body.List) == 1 {
 		if r, ok := f.Body.List[0].(*ast.ReturnStmt); ok && len(r.Results) == 1 {
